@@ -36,7 +36,7 @@ PRIMES = [2, 3, 5, 7, 11, 13, 17]
 
 CONFIGS = ["numeric", "numeric_cstr", "named", "named_cstr", "arrhenius", "arrhenius_unique", "arrhenius_param", "ramped_temp",
            "create_named", "create_arrhenius", "create_named_cstr", "create_named_symbols", "reassign", "subst_vs_constants",
-           "shared_expr", "unique_zero", "unique_zero_incl"]
+           "shared_expr", "unique_zero", "unique_zero_incl", "create_param_expr"]
 
 
 def gen_systems(tier, seed):
@@ -178,6 +178,17 @@ def build_case(rxs, config):
         else:
             kfun = lambda P: [(0 if i == 0 else P["A%d" % i]) * sp.exp(-(0 if i == 1 else P["E%d" % i]) / P["temperature"]) for i in range(nr)]  # noqa
             expected_params = ({"temperature"} | {"A%d" % i for i in range(nr)} | {"E%d" % i for i in range(nr)}) - set(zero)
+    elif config == "create_param_expr":
+        # the alternative builder with `parameter_expressions` (overrides): for a unique key of an Expr parameter (which also has an
+        # inlined default and a symbol of its own) and for a plain named parameter; every other parameter stays a free symbol
+        # (the overridden plain name comes first: on the pinned tree only a NAMED parameter's override contributes its own parameter
+        # keys - 'temperature' - to the symbol table; overriding a unique key alone raises KeyError, which is not part of this claim)
+        params = ["k0"] + ([MassAction([int(A[1])], unique_keys=("k1",))] if nr > 1 else []) + ["k%d" % i for i in range(2, nr)]
+        over = {"k0": Arrhenius([int(A[0]) + 1, int(E[0])])}
+        if nr > 1:
+            over["k1"] = Arrhenius([int(A[1]) + 1, int(E[1])])
+        kfun = lambda P: [(int(A[i]) + 1) * sp.exp(-sp.Integer(int(E[i])) / P["temperature"]) if ("k%d" % i) in over else P["k%d" % i] for i in range(nr)]  # noqa
+        expected_params = {"temperature"} | ({"k1"} if nr > 1 else set()) | {"k%d" % i for i in range(2, nr)}
     elif config == "arrhenius_param":
         params = [ArrheniusParam(int(a), int(e)) for a, e in zip(A, E)]
         from chempy.kinetics.arrhenius import _get_R
@@ -216,6 +227,9 @@ def build_case(rxs, config):
             rkw["rates_kw"] = dict(backend=sp)
         if cstr:
             rkw["rates_kw"] = dict(cstr_fr_fc=("feedratio", OrderedDict([(k, "fc_" + k) for k in keys])))
+        if config == "create_param_expr":
+            rkw["parameter_expressions"] = over
+            rkw["rates_kw"] = dict(backend=sp)
         if config == "create_named_symbols":
             # the caller supplies the dependent-variable symbols as a plain mapping, not in substance order
             rkw["substance_symbols"] = {k: sp.Symbol("c_" + k) for k in reversed(keys)}
